@@ -456,6 +456,14 @@ class C17(Engine):
             # some listings (sweet16) do not end their lines: take every "0x<addr>:" label instead
             addrs = [int(a, 16) for a in re.findall(r"0x([0-9a-fA-F]+):", out)]
         descents = sum(1 for i in range(1, len(addrs)) if addrs[i] < addrs[i - 1])
+        # a command with an explicit numeric range a-b has no business far outside it: a listing that wrapped at the top
+        # of the address space and carries on from 0 looks monotone for four thousand million lines
+        line = console[pos - 1] if plan["mode"] == "interactive" and 0 < pos <= len(console) else ""
+        mrange = re.match(r"^\s*\w+\s+(0x[0-9a-fA-F]+|\d+)\s*-\s*(0x[0-9a-fA-F]+|\d+)\s*$", line)
+        if mrange and addrs:
+            ra, rb = int(mrange.group(1), 0), int(mrange.group(2), 0)
+            if ra <= rb and any(a < ra - 0x100 or a > rb + 0x100 for a in addrs[-50:]):
+                return "hang:%s:listing-left-the-requested-range" % cmd
         # (an address may repeat: several listings print one line per byte of a multi-byte unit)
         if len(addrs) >= 200 and len(set(addrs)) >= 50 and descents <= 2:
             # addresses never go back (one wrap at 2^32 allowed): the listing advances through a huge range
